@@ -7,7 +7,7 @@ use crate::drive::{flat, has_panic, Opts, Term};
 use crate::expr::*;
 use crate::model::{same_transcript, Halt, Machine};
 use crate::runner::{Ctx, Outcome, Property, Sub};
-use crate::sem::Bin;
+use crate::sem::{Bin, Ty};
 use crate::tape::{hash_str, Tape};
 
 fn v(n: &str) -> E {
@@ -52,7 +52,7 @@ fn positions() -> Vec<E> {
     vec![l("0"), l("1"), l("2"), l("3"), l("5"), l("6"), l("7"), l("254"), l("255"), l("256"), l("32767"), n("1"), n("32767"), l("2.5"), l("0.9"), l("1D0"), l("32768"), l("65536"), n("0.5")]
 }
 
-const FORMS: usize = 22;
+const FORMS: usize = 23;
 
 fn print_b(e: E) -> Stmt {
     Stmt::Print(vec![PItem::Expr(E::Str("<".into())), PItem::Semi, PItem::Expr(e), PItem::Semi, PItem::Expr(E::Str(">".into()))])
@@ -105,6 +105,18 @@ fn case(f: usize, s: &E, p: &E, i: &E, j: &E) -> Vec<Stmt> {
             PItem::Semi,
             PItem::Expr(bin(Bin::Ne, bin(Bin::Add, v("S$"), v("P$")), bin(Bin::Add, v("P$"), v("S$")))),
         ])],
+        22 => {
+            // the store limit applies to every string variable: DEFSTR names and array elements too
+            vec![
+                Stmt::DefType(Ty::Str, 'U', 'V'),
+                Stmt::Let { lv: Lval::Var(Name::new("U")), e: bin(Bin::Add, v("S$"), v("P$")), kw: false },
+                print_b(call("LEN", vec![v("U")])),
+                Stmt::Let { lv: Lval::Elem(Name::new("V"), vec![E::Lit("1".into())]), e: bin(Bin::Add, v("P$"), v("S$")), kw: false },
+                print_b(call("LEN", vec![E::Elem(Name::new("V"), vec![E::Lit("1".into())])])),
+                Stmt::Let { lv: Lval::Elem(Name::new("W$"), vec![E::Lit("2".into())]), e: bin(Bin::Add, v("S$"), v("P$")), kw: false },
+                print_b(call("LEN", vec![E::Elem(Name::new("W$"), vec![E::Lit("2".into())])])),
+            ]
+        }
         // metamorphic identities (each must print -1)
         18 => vec![Stmt::Print(vec![PItem::Expr(bin(Bin::Eq, bin(Bin::Add, call("LEFT$", vec![v("S$"), i.clone()]), call("MID$", vec![v("S$"), bin(Bin::Add, i.clone(), E::Lit("1".into()))])), v("S$")))])],
         19 => vec![
@@ -182,8 +194,8 @@ fn gen_matrix(part: usize, parts: usize, thorough: bool, emit: &mut dyn FnMut(&s
     let mut idx = 0usize;
     for f in 0..FORMS {
         let uses_j = matches!(f, 4 | 10 | 15);
-        let uses_i = !matches!(f, 0 | 5 | 7 | 16 | 17 | 20 | 21);
-        let uses_p = matches!(f, 0 | 5 | 6 | 7 | 9 | 14 | 15 | 16 | 17 | 21);
+        let uses_i = !matches!(f, 0 | 5 | 7 | 16 | 17 | 20 | 21 | 22);
+        let uses_p = matches!(f, 0 | 5 | 6 | 7 | 9 | 14 | 15 | 16 | 17 | 21 | 22);
         for s in 0..ns {
             for p in 0..(if uses_p { np } else { 1 }) {
                 if !thorough && uses_p && uses_i && p % 2 == 1 {
@@ -213,7 +225,7 @@ fn check_matrix(item: &str, ctx: &Ctx) -> Outcome {
     }
     let stmts = case(k[0], &ss[k[1]], &ps[k[2]], &ns[k[3]], &ns[k[4]]);
     let text = render_stmts(&stmts);
-    match run_case(&stmts, k[0] >= 18) {
+    match run_case(&stmts, (18..=21).contains(&k[0])) {
         Ok(err) => {
             let multibyte = k[1] >= 3 && k[1] != 7 && k[1] != 8 && k[1] != 11;
             let o = Outcome::pass(multibyte || k[3] != 1, hash_str(item)).with_labels(if err { vec!["out-of-domain argument -> BASIC error"] } else { vec![] });
@@ -265,7 +277,7 @@ fn check_random(t: &mut Tape, ctx: &Ctx) -> Outcome {
     let j = num(t);
     let stmts = case(f, &s, &p, &i, &j);
     let text = render_stmts(&stmts);
-    match run_case(&stmts, f >= 18) {
+    match run_case(&stmts, (18..=21).contains(&f)) {
         Ok(err) => {
             let multibyte = text.chars().any(|c| !c.is_ascii());
             let o = Outcome::pass(multibyte, hash_str(&text)).with_labels(if err { vec!["out-of-domain argument -> BASIC error"] } else { vec![] });
@@ -340,7 +352,7 @@ fn check_val(t: &mut Tape, ctx: &Ctx) -> Outcome {
 pub fn property() -> Property {
     Property {
         id: "C07",
-        rule: "Cases: 22 forms — LEN, LEFT$, RIGHT$, MID$ (2 and 3 arguments), INSTR (2 and 3 arguments), ASC, CHR$, STRING$ (string and code), SPC, STR$/VAL, HEX$/OCT$, MID$ assignment (2 and 3 arguments), the 255-character store limit, comparison and concatenation, and four metamorphic identities \
+        rule: "Cases: 23 forms — LEN, LEFT$, RIGHT$, MID$ (2 and 3 arguments), INSTR (2 and 3 arguments), ASC, CHR$, STRING$ (string and code), SPC, STR$/VAL, HEX$/OCT$, MID$ assignment (2 and 3 arguments), the 255-character store limit (for $ names, DEFSTR names and array elements), comparison and concatenation, and four metamorphic identities \
 (LEFT$(s,n)+MID$(s,n+1)=s; LEN(LEFT$(s,n))=min(n,len); CHR$(ASC(c))=c; an INSTR hit r satisfies MID$(s,r,LEN(p))=p). (matrix) the exhaustive cross product of 12 subject strings (empty, ASCII, 2/3/4-byte characters, mixed, 254/255-character strings built by STRING$ and concatenation), 11 patterns and 19 positions/counts \
 (0, 1, 2, len-1, len, len+1, 254..256, 32767, 32768, 65536, negative, fractional, Double); (random) proptest-generated strings over a 16-character alphabet with patterns cut out of the subject; (val_texts) VAL of generated numeric texts: signs, digits, fraction, E e D d exponents, type suffixes, & and &H forms over all hex digits in both cases, leading blanks, trailing junk. \
 Oracle: reference implementations on characters written from Chapter 3; results exact, out-of-domain arguments must give a BASIC error (the named code where the manual names one). Open points skipped: INSTR with a negative start, INSTR beyond the end with an empty pattern. \
